@@ -712,6 +712,22 @@ func (c *Fn) lt(i ssa.Value, L string, strict bool, at *ssa.BasicBlock, d int) b
 				}
 			}
 		}
+		// max(a, b, ...): every argument is below L (0 <= any length)
+		if (n == "builtin.max" || strings.HasSuffix(n, "/internal/utils.Max")) && len(v.Common().Args) > 0 {
+			all := true
+			for _, a := range v.Common().Args {
+				if k, isK := ssau.ConstInt(a); isK && k == 0 && !strict && strings.HasPrefix(L, "len(") {
+					continue
+				}
+				if !c.lt(a, L, strict, at, d+1) {
+					all = false
+					break
+				}
+			}
+			if all {
+				return true
+			}
+		}
 	case *ssa.Extract:
 		// index of a string range: for i, r := range s
 		if nx, ok := v.Tuple.(*ssa.Next); ok && v.Index == 1 && nx.IsString {
